@@ -4,7 +4,16 @@ from __future__ import annotations
 from pyvc.run import run_t1, replay_t1
 from vlib.result import Ctx, PropResult
 
-ALL_MODULES = ["source_map", "compiler_utils", "meta_attributes", "decompiler_writer"]
+ALL_MODULES = ["source_map", "compiler_utils", "meta_attributes", "decompiler_writer", "resolver"]
+# properties whose check = bounded stand-ins (props/Cxx.py) + the deductive layer over the contracts tagged with them
+T1_PROPS = {"C02", "C03", "C06", "C07", "C08", "C09", "C10"}
+
+
+def maybe_add_t1(res: PropResult, prop: str, ctx: Ctx) -> PropResult:
+    if prop in T1_PROPS and not res.extra.get("t1_included"):
+        res = add_t1(res, prop, ctx)
+        res.extra["t1_included"] = True
+    return res
 
 
 def add_t1(res: PropResult, prop: str, ctx: Ctx, modules: list[str] | None = None, timeout_ms: int = 8000, n_cross: int = 300) -> PropResult:
